@@ -95,6 +95,14 @@ impl io::Write for SimStream {
                 Ok(k)
             }
             WrOp::Zero => Ok(0),
+            // a stream is any `Write`: every other failing call reports the error by KIND only, without
+            // an OS error code (what a wrapper or an in-memory stream does); the caller must go by kind
+            WrOp::Eintr | WrOp::Eagain | WrOp::Epipe | WrOp::Reset if s.write_calls % 2 == 0 => Err(io::Error::from(match op {
+                WrOp::Eintr => io::ErrorKind::Interrupted,
+                WrOp::Eagain => io::ErrorKind::WouldBlock,
+                WrOp::Epipe => io::ErrorKind::BrokenPipe,
+                _ => io::ErrorKind::ConnectionReset,
+            })),
             WrOp::Eintr => Err(io::Error::from_raw_os_error(libc::EINTR)),
             WrOp::Eagain => Err(io::Error::from_raw_os_error(libc::EAGAIN)),
             WrOp::Epipe => Err(io::Error::from_raw_os_error(libc::EPIPE)),
